@@ -612,7 +612,7 @@ func (c *Ctx) symStr(v ssa.Value, depth int) string {
 			}
 			if len(stores) == 1 {
 				if p, ok := stores[0].(*ssa.Parameter); ok {
-					return paramRef(p)
+					return c.symStr(p, depth+1)
 				}
 			}
 		}
@@ -630,6 +630,11 @@ func (c *Ctx) symStr(v ssa.Value, depth int) string {
 func fieldName(t types.Type, i int) string {
 	if p, ok := t.Underlying().(*types.Pointer); ok {
 		t = p.Elem()
+	}
+	if n, ok := t.(*types.Named); ok {
+		if r, ok := fieldRoles[n][i]; ok {
+			return r // the field's role (its conventional name), whatever it is called today
+		}
 	}
 	if st, ok := t.Underlying().(*types.Struct); ok && i < st.NumFields() {
 		return st.Field(i).Name()
@@ -675,7 +680,9 @@ func ruleDecode(c *Ctx) *RuleResult {
 		} else {
 			got := c.symStr(calls[0].Call.Args[0], 0)
 			want := `"\""+(*Lexer).consumeUntil(param#0,34)#0+"\""`
-			if got == want {
+			// the delimiter scanner is recognised by its shape (a lexer method taking the
+			// closing rune), not by its name
+			if regexp.MustCompile(`^"\\""\+\(\*Lexer\)\.\w+\(param#0,34\)#0\+"\\""$`).MatchString(got) {
 				r.ok("quoted-identifier", c.pos(calls[0].Pos()), fname(fn), "decoder input is "+got)
 			} else {
 				r.viol("quoted-identifier", c.pos(calls[0].Pos()), fname(fn), "decoder input is "+got+", wanted "+want)
@@ -711,7 +718,8 @@ func ruleDecode(c *Ctx) *RuleResult {
 		}
 		want := "strings.Replace((*Lexer).consumeUntil(param#0,96)#0,\"\\\\`\",\"`\",-1)"
 		alt := "strings.ReplaceAll((*Lexer).consumeUntil(param#0,96)#0,\"\\\\`\",\"`\")"
-		if got == want || got == alt {
+		unnamed := regexp.MustCompile(`\(\*Lexer\)\.\w+\(param#0,96\)`).ReplaceAllString(got, "(*Lexer).consumeUntil(param#0,96)")
+		if got == want || got == alt || unnamed == want || unnamed == alt {
 			r.ok("json-literal-text", pos, fname(fn), "token text is "+got)
 		} else if got == "" {
 			r.undecided("json-literal-text", pos, fname(fn), "the scanner does not build its token here: where the token text comes from is not visible to this rule")
@@ -748,7 +756,7 @@ func ruleDecode(c *Ctx) *RuleResult {
 						}
 					}
 				}
-				if got == "param#1.value" && dstOK {
+				if c.isTokenTextOfParam(fn, calls[0].Call.Args[0]) && dstOK {
 					r.ok("json-literal-decode", c.pos(calls[0].Pos()), fname(fn), "literal payload = json.Unmarshal(token text) into an interface{}: same representation as a decoded document")
 				} else {
 					r.viol("json-literal-decode", c.pos(calls[0].Pos()), fname(fn), fmt.Sprintf("decoder input is %s (wanted the token text), destination-is-the-node-payload=%v", got, dstOK))
@@ -777,7 +785,7 @@ func ruleDecode(c *Ctx) *RuleResult {
 					}
 					n++
 					mi, ok := st.Val.(*ssa.MakeInterface)
-					if !ok || c.symStr(mi.X, 0) != "param#1.value" {
+					if !ok || !c.isTokenTextOfParam(fn, mi.X) {
 						okAll = false
 						detail = c.symStr(st.Val, 0)
 					}
@@ -1547,4 +1555,43 @@ func paramRef(p *ssa.Parameter) string {
 		}
 	}
 	return "param:" + p.Name()
+}
+
+// isTokenTextOfParam: v is (a conversion of) the text field of fn's token
+// parameter — the token nud was called with, unchanged.
+func (c *Ctx) isTokenTextOfParam(fn *ssa.Function, v ssa.Value) bool {
+	for {
+		switch x := v.(type) {
+		case *ssa.Convert:
+			v = x.X
+			continue
+		case *ssa.ChangeType:
+			v = x.X
+			continue
+		}
+		break
+	}
+	base, fld, ok := fieldRead(v)
+	if !ok {
+		return false
+	}
+	t := base.Type()
+	if pt, isPtr := t.Underlying().(*types.Pointer); isPtr {
+		t = pt.Elem()
+	}
+	if !types.Identical(t, c.A.TokenT) || fieldName(c.A.TokenT, fld) != "value" {
+		return false
+	}
+	for _, p := range fn.Params {
+		if !types.Identical(p.Type(), c.A.TokenT) {
+			continue
+		}
+		if base == ssa.Value(p) {
+			return true
+		}
+		if sp := paramSpill(p); sp != nil && base == ssa.Value(sp) {
+			return true
+		}
+	}
+	return false
 }
